@@ -64,6 +64,7 @@ Section Law.
     let hs := e_handlers E in
     match o with
     | Read => chk 3 (is_nil (o_calls ob))
+    | Other => chk 3 (is_nil (o_calls ob))        (* a change of another trait is not a change of this one *)
     | Retrait => chk 3 (is_nil (o_calls ob))      (* replacing the trait definition is not an assignment *)
     | QuietAssign _ => []     (* notification switched off by the caller: the statement is silent; compared in Corr.v.
                                  What matters to the law is that the NEXT ordinary assignment notifies again *)
